@@ -8,7 +8,10 @@ are recomputed with scipy alone.  Compared per operation: PDF-ratio values and g
 (relation: |a-b| <= 1e-9*(|a|+|b|)+1e-300; bit-exactness is counted as a diagnostic), interpolation-cache hit,
 number of spline evaluations, background-cache miss (exact), and which evaluation a second derivative refers to.
 Property oracles (implementation only): the same final query on a freshly built object graph (bitwise), the same
-history with PDF value caching switched off (bitwise).
+history with PDF value caching switched off (bitwise), byte snapshots of the leaf caches (inputs never written, repeated
+evaluation leaves caches and gradients bit-identical, caches equal those of a fresh object graph).  A second object
+graph — PDFRatioProduct of the real SplinedI3EnergySigSetOverBkgPDFRatio (hands out its cache) with a sharing stub ratio,
+in both orders — is driven by the oracles only.
 """
 import ast
 import copy
@@ -695,15 +698,17 @@ def probe_cases(spec, i):
     pts = points(spec)
     K = spec['K']
     p = [pts['p']] * K if not spec.get('split') else [pts['p'], pts['q']][:K]
-    q = [pts['r']] * K if not spec.get('split') else [pts['q'], pts['p']][:K]
-    sp = dict(spec, product=[None, 'first', 'second'][i % 3])
+    # per-source parameters: the second point keeps the grid cell of the first source and moves the second source
+    q = [pts['r']] * K if not spec.get('split') else [pts['p2'], pts['r']][:K]
+    sp = spec if spec.get('graph') == 'i3' else dict(spec, product=[None, 'first', 'second'][i % 3])
     out = [dict(spec=sp, d0=0, s0=0, ops=[['E', 2.5, p], ['I', 1]], final=['eval', 2.5, p])]
     if i % 2 == 0:
         out.append(dict(spec=sp, d0=1, s0=0, ops=[['E', 2.5, p], ['I', 2]], final=['eval', 2.5, p]))
     else:
         out.append(dict(spec=sp, d0=1, s0=0, ops=[['E', 0.7, p], ['S', 1]], final=['eval_grad2', 0.7, p]))
-    if i % 3 == 0:
+    if i % 3 == 0 or spec.get('split') or spec.get('graph') == 'i3':
         out.append(dict(spec=sp, d0=2, s0=1, ops=[['E', 2.5, p], ['E', 2.5, q]], final=['eval', 2.5, p]))
+        out.append(dict(spec=sp, d0=2, s0=1, ops=[['E', 2.5, p]], final=['eval_grad2', 2.5, q]))
     return out
 
 
@@ -820,8 +825,9 @@ def run(ctx):
             cases.append((gen_case(ctx, spec, maxlen), False))
     # PDFRatioProduct around the real SplinedI3EnergySigSetOverBkgPDFRatio (oracles only; no Lean model of this graph)
     i3_cases = [dict(spec=sp, d0=0, s0=0, ops=[['E', 2.5, [2.13]]], final=['eval', 2.5, [2.13]]) for sp in i3_specs()]
-    for sp in i3_specs():
-        i3_cases += [gen_case(ctx, sp, maxlen) for _ in range(ctx.n(12, 150))]
+    for i, sp in enumerate(i3_specs()):
+        i3_cases += probe_cases(sp, i) + probe_cases(sp, i + 1)[1:2]
+        i3_cases += [gen_case(ctx, sp, maxlen) for _ in range(ctx.n(8, 150))]
     stats = {'floats': 0, 'bit_exact': 0}
     # ---- implementation runs + model requests (one driver batch)
     impls, reqs = [], []
@@ -952,11 +958,13 @@ MANIFEST = dict(
           'return; PDF value caching on/off is invisible; an interpolation-cache hit implies same state id and same grid key; '
           'the cached ns-gradients always belong to the current trial. The executable model (real cache fields incl. per-source '
           'NaN blocks) is run against a real likelihood object graph on every run: values, hit/miss counts and the provenance '
-          'of the second derivative are compared; fresh-vs-used and caching-on/off oracles search for failing histories.'),
+          'of the second derivative are compared; fresh-vs-used, caching-on/off and cache byte-snapshot oracles search for failing '
+          'histories, also on a PDFRatioProduct around the real SplinedI3EnergySigSetOverBkgPDFRatio in both factor orders.'),
     note=('Hypotheses (a) every initialize_trial advances the state id and (b) the hit test is key equality are discharged for '
           'flags read from the current source (c06_sound_for_current_source); three counterexample theorems show what happens '
           'without them (pinned commit). The LLH value formula, grid rounding, the minimiser and IEEE rounding are outside the '
           'theorems (C01, C15, C11); maximize/TS are covered by the fresh-vs-used oracle only. DataField global-fit-parameter '
-          'fields, the I3 spline PDF ratio and photospline tables are not in the modelled object graph.'),
+          'fields are modelled separately (TrialDataManager level); the I3 spline PDF ratio is exercised by the oracles but has no '
+          'Lean model of its own (same slot pattern); photospline tables are not covered.'),
     design='DESIGN.md section 4 C06',
     technique='Lean 4 proof (state-machine refinement, induction over histories) + model/implementation correspondence on histories')
